@@ -1,6 +1,7 @@
 package main
 
 import (
+	"strconv"
 	"fmt"
 	"go/parser"
 	"go/token"
@@ -162,20 +163,52 @@ func genImportHistory(cx *CheckCtx, i int, cfg FileCfg) *Case {
 	}
 	reg := 0
 	rounds := 2 + r.Intn(3)
+	touched := map[int]bool{} // pool indices that have appeared in some output already
+	var held []int            // statements rendered as fragments with the File, not (yet) part of it
 	for k := 0; k < rounds; k++ {
 		if k > 0 && r.Chance(25) {
 			c.Ops = append(c.Ops, Op{Kind: OpCgo, F: 0, Str: []string{"#include <x.h>"}})
 		}
-		sub := &PathPool{Paths: pool.Paths}
-		nrefs := r.Intn(3)
-		var refs []Arg
-		for j := 0; j < nrefs; j++ {
-			q := r.Intn(len(sub.Paths))
-			refs = append(refs, st(Qual{Path: sub.Paths[q], Name: qName(q)}))
+		if k > 0 && r.Chance(30) {
+			// Anon of a path, possibly one that already has a name from an earlier render
+			c.Ops = append(c.Ops, Op{Kind: OpAnon, F: 0, Str: []string{pick(r, pool.Paths)}})
 		}
-		if len(refs) > 0 {
+		if k > 0 && r.Chance(30) {
+			// a hint given after a render, for a path no output has shown yet (for a path already
+			// printed the name is final, C08, and the oracle's "declared name" would be stale)
+			q := r.Intn(len(pool.Paths))
+			if !touched[q] && pool.Paths[q] != "C" {
+				if r.Bool() {
+					c.Ops = append(c.Ops, Op{Kind: OpHintName, F: 0, Str: []string{pool.Paths[q], genHintName(r)}})
+				} else {
+					c.Ops = append(c.Ops, Op{Kind: OpHintAlias, F: 0, Str: []string{pool.Paths[q], pick(r, []string{genHintName(r), "."})}})
+				}
+			}
+		}
+		mkRefs := func(n int) []Arg {
+			var refs []Arg
+			for j := 0; j < n; j++ {
+				q := r.Intn(len(pool.Paths))
+				touched[q] = true
+				refs = append(refs, st(Qual{Path: pool.Paths[q], Name: qName(q)}))
+			}
+			return refs
+		}
+		if r.Chance(35) {
+			// a statement rendered with the File as a fragment BEFORE anything else of this round
+			// is added: its paths are named first, the file body may list them later
+			reg++
+			c.Ops = append(c.Ops, Op{Kind: OpStmt, S: reg, Items: st(kw("Var"), id("_"), op("="), &Grp{Api: "Index"}, kw("Any"), &Grp{Api: "Values", Args: mkRefs(1 + r.Intn(2))}).Items})
+			c.Ops = append(c.Ops, Op{Kind: OpFrag, S: reg, F: 0})
+			held = append(held, reg)
+		}
+		if refs := mkRefs(r.Intn(3)); len(refs) > 0 {
 			s := st(kw("Var"), id("_"), op("="), &Grp{Api: "Index"}, kw("Any"), &Grp{Api: "Values", Args: refs})
 			c.Ops = append(c.Ops, addToFile(r, 0, s, &reg)...)
+		}
+		if len(held) > 0 && r.Chance(50) {
+			c.Ops = append(c.Ops, Op{Kind: OpFAdd, F: 0, Args: []Arg{Ref{Reg: held[0]}}})
+			held = held[1:]
 		}
 		c.Ops = append(c.Ops, Op{Kind: OpRender, F: 0})
 	}
@@ -284,6 +317,19 @@ func importFindings(cx *CheckCtx, runs []*CaseRun, prop string) []Finding {
 	for _, cr := range runs {
 		pool := poolOf(cr.Case)
 		ri := -1
+		earlier := map[string]bool{}
+		noteSeen := func(src string, fragment bool) {
+			if fragment {
+				src = "package p\n" + src
+			}
+			if f, err := parser.ParseFile(token.NewFileSet(), "", src, 0); err == nil {
+				for i := range usesOf(f) {
+					if i < len(pool) {
+						earlier[pool[i]] = true
+					}
+				}
+			}
+		}
 		for oi, o := range cr.Case.Ops {
 			if !o.IsRender() {
 				continue
@@ -293,16 +339,41 @@ func importFindings(cx *CheckCtx, runs []*CaseRun, prop string) []Finding {
 				break
 			}
 			if o.Kind != OpRender {
+				if cr.Real[ri].Class == "ok" {
+					noteSeen(cr.Real[ri].Out, true)
+				}
 				continue
 			}
 			cx.Stats.OracleCases++
 			t := truthOf(cr.Case, o.F, oi)
 			t.Pool = pool
+			t.EarlierSeen = map[string]bool{}
+			for p := range earlier {
+				t.EarlierSeen[p] = true
+			}
+			if cr.Real[ri].Class == "ok" {
+				noteSeen(cr.Real[ri].Out, false)
+			}
 			obs := cr.Real[ri]
 			if obs.Class == "err:format" {
 				// valid body by construction: the import block must be the cause
 				raw := obs.Err
 				if !importsAtFault(raw) {
+					// the bodies of these recipes are valid by construction, so the only other
+					// possible cause is a qualifier that is no identifier (e.g. "." written
+					// before the name of a dot-imported package's symbol)
+					if m := badQualRe.FindStringSubmatch(raw); m != nil {
+						k, _ := strconv.Atoi(m[2])
+						p, shape := "C03", "qualifier-not-an-identifier"
+						if k < len(pool) {
+							if h, ok := t.Hints[pool[k]]; ok && h[0] == "." {
+								p, shape = "C06", "dot-import-not-bare"
+							}
+						}
+						if p == prop || prop == "C03" {
+							fs = append(fs, Finding{Property: prop, Shape: shape, What: fmt.Sprintf("File.Render fails: the reference to %s is written as %q", m[2], m[0]), Case: cr.Case.Text(), Observed: trunc(raw)})
+						}
+					}
 					continue
 				}
 				shape, p := "unparseable-output", "*"
@@ -340,6 +411,9 @@ func importFindings(cx *CheckCtx, runs []*CaseRun, prop string) []Finding {
 	}
 	return fs
 }
+
+// a reference Q<i>z preceded by "." with no identifier before the dot
+var badQualRe = regexp.MustCompile("(^|[^A-Za-z0-9_)\\]}\"'`])\\.+Q(\\d+)z")
 
 func allSane(c *Case) bool {
 	ok := true
@@ -490,6 +564,10 @@ func registerImportChecks() {
 			cfg := defaultFileCfg
 			cfg.hintPct, cfg.prefixPct = 50, 50
 			cs := std(cx, 3500, 250000, cfg, false)
+			// histories (fragments rendered with the File first, Anon and hints between renders)
+			for i := 0; i < cx.N(600, 40000); i++ {
+				cs = append(cs, genImportHistory(cx, i, cfg))
+			}
 			// exhaustive: every keyword and universe identifier as last element and as hint
 			words := append(append([]string{}, goKeywords...), universeNames...)
 			for wi, w := range words {
